@@ -109,3 +109,18 @@ def alias_rule(ctx, pid, rels):
         mod = core.module(rel)
         ctx.saw(mod)
         alias.check(ctx, pid, mod)
+
+
+def hazard_rule(ctx, pid):
+    """report the dtype hazards the evaluators met during this run (zero-count rule; positive example in the self-test corpus)"""
+    from . import symeval
+    ctx.rule("dtype", "no in-place store into an array whose dtype is inherited from the caller's data")
+    seen = set()
+    for kind, fn, line, text in symeval.HAZARDS:
+        key = "%s:%s:%s" % (pid, kind, fn)
+        if key in seen:
+            continue
+        seen.add(key)
+        ctx.fail(key, text, "line %d" % line)
+    if not seen:
+        ctx.ok("%s:dtype:none" % pid)
